@@ -48,6 +48,13 @@ are cross-checked with python fractions / bytes / base64 / datetime / a duration
 LookupSeq (profile "lookupseq"): E?KS with a SEQUENCE of 1-3 maps / arrays on the left (mixed kinds and sizes),
 every key specifier (?name ?1 ?* ?(k) ?(k1, k2) ?(())), postfix, unary after '!' and item by item in a for.
 
+ArrTyped (profile "arrtyped"): the position of array:get/put/remove/insert-before/subarray, of $a(i) and of
+$a?(i) written as a literal, xs:integer / xs:long / xs:short / xs:unsignedByte / xs:positiveInteger
+constructor, cast, arithmetic, count() (all mean the value) and as xs:decimal / xs:double / xs:string /
+xs:boolean (XPTY0004).  MapMergeOpt (profile "mergeopts"): the options map of map:merge - map{}, unrelated
+entries only (default use-first), duplicates as xs:untypedAtomic / xs:anyURI, an illegal value (FOJS0005), a
+value of a wrong type.  Keys of types derived from xs:integer (xs:long, xs:unsignedByte) are in KeysL.
+
 The graph of one configuration is a forest (one tree per seed store); trees are replayed in a fork
 pool, with few seeds the pool is filled below the first operation.  A state is entered only along a
 transition that passed in both bindings (prefix hygiene); a failure seen on a store that earlier
@@ -77,7 +84,7 @@ from decimal import Decimal
 
 from .. import core, tla
 
-NAMED_CODES = {'FOAY0001', 'FOAY0002', 'XQDY0137', 'FOJS0003'}
+NAMED_CODES = {'FOAY0001', 'FOAY0002', 'XQDY0137', 'FOJS0003', 'FOJS0005'}
 
 def _c(profile, depth, lite=False, obs_terminal=True):
     return dict(Profile=profile, Depth=depth, ObsTerminal=obs_terminal, InPlace=False, Lite=lite)
@@ -95,6 +102,8 @@ TIERS = {
         ('keysl-d1', _c('keysl', 1)),               # two spellings of one value for every type, cross-type traps, falsy keys
         ('mergel-d1', _c('mergel', 1)),
         ('lookupseq', _c('lookupseq', 1)),          # E?KS with a sequence of maps / arrays on the left
+        ('arrtyped', _c('arrtyped', 1)),            # positions of derived integer types / non-integers (XPTY0004)
+        ('mergeopts', _c('mergeopts', 1)),          # the options map of map:merge
         ('merge13-d1', _c('merge13', 1)),           # merge of two single-entry maps, 13 x 13 keys x 6 policies
         ('mapvals-d1', _c('mapvals', 1)),           # maps of <= 3 entries, nested values, all map functions
         ('arrays-d1', _c('arrays', 1)),             # arrays of <= 3 members, all array functions, positions -1..4
@@ -116,6 +125,8 @@ TIERS = {
         ('keys7-d3', _c('keys7', 3)),
         ('keysx-d2', _c('keysx', 2)),
         ('keysl-d2', _c('keysl', 2)),
+        ('arrtyped', _c('arrtyped', 1)),
+        ('mergeopts', _c('mergeopts', 1)),
         ('mergel-d1', _c('mergel', 1)),
         ('lookupseq', _c('lookupseq', 1)),
         ('mergex-d1', _c('mergex', 1)),
@@ -128,8 +139,8 @@ ALL_ACTIONS = [
     'MapConsA', 'MapPut', 'MapRemove', 'MapGet', 'MapContains', 'MapSize', 'MapKeys', 'MapEntry', 'MapForEachA',
     'MapFind', 'MapMerge', 'ArrConsSquare', 'ArrConsCurly', 'ArrGet', 'ArrPut', 'ArrAppend', 'ArrSubarray2',
     'ArrSubarray3', 'ArrRemove', 'ArrInsertBefore', 'ArrHead', 'ArrTail', 'ArrReverse', 'ArrJoin', 'ArrFlatten',
-    'ArrForEach', 'ArrFilter', 'ArrFold', 'ArrSize', 'Lookup', 'DeepEqual', 'Batch', 'LookupSeq']
-NSEED = {'lookupseq': 3, 'mergel': 2, 'merge': 2, 'merge13': 2, 'mergex': 2, 'deq': 2, 'mixed': 2, 'mixed1': 2, 'cons': 0, 'batch': 0}
+    'ArrForEach', 'ArrFilter', 'ArrFold', 'ArrSize', 'Lookup', 'DeepEqual', 'Batch', 'LookupSeq', 'ArrTyped', 'MapMergeOpt']
+NSEED = {'arrtyped': 2, 'mergeopts': 2, 'lookupseq': 3, 'mergel': 2, 'merge': 2, 'merge13': 2, 'mergex': 2, 'deq': 2, 'mixed': 2, 'mixed1': 2, 'cons': 0, 'batch': 0}
 
 # ---------------------------------------------------------------------------------------
 # abstract values (as parsed from TLC): atom {'a','x'}, map {'m': (entries {'k','v'})}, array {'r': (values)}
@@ -197,6 +208,8 @@ def atom_lit(a) -> str:
         return '$' + x          # the hole of a constructor template (Batch)
     if t == 'integer':
         return x
+    if t in ('long', 'unsignedByte'):
+        return f'xs:{t}({x})'
     if t == 'decimal':
         return x if '.' in x else x + '.0'
     if t == 'double':
@@ -263,6 +276,10 @@ def atom_py(a):
     t, x = a['a'], a['x']
     if t == 'integer':
         return int(x)
+    if t == 'long':
+        return e.dt.Long(int(x))
+    if t == 'unsignedByte':
+        return e.dt.UnsignedByte(int(x))
     if t == 'decimal':
         return Decimal(x if '.' in x else x + '.0')
     if t == 'double':
@@ -338,7 +355,7 @@ def proj_atom(x):
     if isinstance(x, bool):
         return {'a': 'boolean', 'x': 'true' if x else 'false'}
     if isinstance(x, int):
-        return {'a': 'integer', 'x': str(x)}
+        return {'a': getattr(type(x), 'name', 'integer'), 'x': str(int(x))}     # xs:integer or a derived type
     if isinstance(x, Decimal):
         return {'a': 'decimal', 'x': num_lex(x) if x.is_finite() else repr(x)}
     if isinstance(x, e.dt.Float):
@@ -414,7 +431,7 @@ def _alarm(signum, frame):
     raise Hang()
 
 
-def xp(expr: str, variables=None):
+def xp(expr: str, variables=None, _retry_s: int = 0):
     """outcome of one evaluation: ('val', value) | ('err', code) | ('escaped', cls) | ('hang',)
 
     The select API flattens arrays that are ITEMS OF THE RESULT SEQUENCE into their members (library
@@ -422,7 +439,7 @@ def xp(expr: str, variables=None):
     single entry of a map, map{0: (EXPR)}, and the value is read back with XPathMap.values()."""
     e = env()
     signal.signal(signal.SIGALRM, _alarm)
-    signal.alarm(20)
+    signal.alarm(_retry_s or 30)
     try:
         r = list(e.iter_select(None, 'map{0: (' + expr + ')}', parser=e.Parser, item=1, variables=variables))
         if len(r) != 1 or not isinstance(r[0], e.XPathMap):
@@ -434,6 +451,9 @@ def xp(expr: str, variables=None):
     except e.Error as ex:
         return ('err', (getattr(ex, 'code', None) or '').split(':')[-1])
     except Hang:
+        if not _retry_s:
+            signal.alarm(0)
+            return xp(expr, variables, _retry_s=300)      # a stalled machine is not a hang: once more, patiently
         return ('hang',)
     except RecursionError:
         return ('escaped', 'RecursionError')
@@ -590,12 +610,54 @@ def expression(b: Binder, action: str, args: tuple) -> str:
             spec = '(' + b.atom(ks[1]) + ')'
         # postfix lookup / unary lookup with the handle as context item
         return f'{b.h(h)} ! ?{spec}' if b.lookup_form == 'unary' else f'{b.h(h)}?{spec}'
+    if action == 'ArrTyped':
+        h, op, i, ty = args
+        pos = typed_position(i, ty)
+        a = b.h(h)
+        return {'ArrGet': f'array:get({a}, {pos})', 'Call': f'{a}({pos})', 'LookupParen': f'{a}?({pos})',
+                'ArrPut': f'array:put({a}, {pos}, 2)', 'ArrRemove': f'array:remove({a}, {pos})',
+                'ArrInsertBefore': f'array:insert-before({a}, {pos}, 2)', 'ArrSubarray2': f'array:subarray({a}, {pos})',
+                'ArrSubarray3': f'array:subarray({a}, {pos}, 1)'}[op]
+    if action == 'MapMergeOpt':
+        hs, opt = args
+        o = {'empty': 'map{}', 'unrelated': "map{'vendor-option': 'use-last', 1: 'reject'}",
+             'untyped:use-last': "map{'duplicates': xs:untypedAtomic('use-last')}",
+             'anyURI:use-last': "map{'duplicates': xs:anyURI('use-last')}",
+             'illegal': "map{'duplicates': 'use-second'}", 'wrongtype': "map{'duplicates': 1}"}[opt]
+        return f'map:merge({b.hs(hs)}, {o})'
     if action == 'DeepEqual':
         return f'deep-equal({b.h(args[0])}, {b.h(args[1])})'
     raise tla.MachineryError(f'no rendering for action {action}')
 
 
+def typed_position(i: int, ty: str) -> str:
+    """the position i written in one of the ways of spec IntegerWays / NonIntegerWays"""
+    if ty == 'literal':
+        return str(i)
+    if ty in ('xs:integer', 'xs:long', 'xs:short', 'xs:unsignedByte', 'xs:positiveInteger'):
+        return f"{ty}('{i}')"
+    if ty == 'cast-int':
+        return f'({i} cast as xs:int)'
+    if ty == 'arith':
+        return f'({i - 1} + 1)'
+    if ty == 'count':
+        return 'count((' + ', '.join(['7'] * i) + '))'
+    if ty == 'decimal':
+        return f'{i}.0'
+    if ty == 'double':
+        return f'{i}e0'
+    if ty == 'string':
+        return f"'{i}'"
+    if ty == 'boolean':
+        return 'true()'
+    raise tla.MachineryError(ty)
+
+
 def python_call(store: list, action: str, args: tuple):
+    if action == 'ArrTyped' and args[1] in ('ArrGet', 'Call', 'LookupParen') and args[3] in PY_POSITIONS:
+        e = env()
+        a, pos = store[args[0] - 1], PY_POSITIONS[args[3]](e, args[2])
+        return lambda: a(pos)
     """the same action through the Python API of the value, where one exists"""
     if action == 'MapGet':
         m, k = store[args[0] - 1], atom_py(args[1])
@@ -627,8 +689,16 @@ def python_call(store: list, action: str, args: tuple):
     return None
 
 
+PY_POSITIONS = {
+    'xs:integer': lambda e, i: e.dt.Integer(i), 'xs:long': lambda e, i: e.dt.Long(i), 'xs:short': lambda e, i: e.dt.Short(i),
+    'xs:unsignedByte': lambda e, i: e.dt.UnsignedByte(i), 'xs:positiveInteger': lambda e, i: e.dt.PositiveInteger(i),
+    'cast-int': lambda e, i: e.dt.Int(i), 'literal': lambda e, i: int(i),
+    'decimal': lambda e, i: Decimal(i), 'double': lambda e, i: float(i), 'string': lambda e, i: str(i), 'boolean': lambda e, i: True,
+}
+
+
 def operands(action: str, args: tuple) -> list[int]:
-    if action in ('MapMerge', 'ArrJoin', 'LookupSeq'):
+    if action in ('MapMerge', 'ArrJoin', 'LookupSeq', 'MapMergeOpt'):
         return sorted(set(args[0]))
     if action == 'DeepEqual':
         return sorted({args[0], args[1]})
@@ -750,7 +820,7 @@ def deep_equal_projection(real, spec_value):
 # ---------------------------------------------------------------------------------------
 # abstract features of a failing case (known findings are sub-patterns of these)
 
-NUMERIC = ('integer', 'decimal', 'double', 'float')
+NUMERIC = ('integer', 'decimal', 'double', 'float', 'long', 'unsignedByte')
 STRINGLIKE = ('string', 'anyURI', 'untypedAtomic')
 
 
@@ -819,6 +889,11 @@ def key_class(k1, k2) -> str:
 def features(action, args, src_store, expected, binding, check, outcome) -> dict:
     f = dict(action=action, binding=binding, check=check, outcome=outcome,
              expected=('err:' + expected[0]['err']) if 'err' in expected[0] else 'value')
+    if action == 'ArrTyped':
+        f.update(op=args[1], position_type=args[3])
+    if action == 'MapMergeOpt':
+        f.update(options=args[1], n_maps=len(args[0]))
+        return f
     if action == 'LookupSeq':
         hs, ks = args
         kinds = ['map' if is_map(src_store[h - 1]['v'][0]) else 'array' for h in hs]
@@ -1434,7 +1509,7 @@ def run_tlc_config(chk, name, consts):
 
 def run_config(chk, name, consts, tlc=None):
     r, dot = tlc if tlc is not None else run_tlc_config(chk, name, consts)
-    tla.require_ok(r, f'MapArray/{name}', min_distinct=20)
+    tla.require_ok(r, f'MapArray/{name}', min_distinct=10)
     chk.model(f'MapArray/{name}', r)
     g = tla.load_dot(dot)
     os.remove(dot)
